@@ -272,3 +272,110 @@ def fault_family(rep, n_cases, n_ops, per_case, known_classes=(), nproc=16):
     cov["distinct_nontrivial"] = cov.get("distinct_nontrivial", 0) + len(hashes)
     cov.setdefault("families", {})["c15-fault"] = tot
     return tot
+
+
+AFTERMATH = [
+    # (source, choices before the failing one, index of the failing choice, choices after it): the failing choice's target
+    # fails at its FIRST statement (after its arguments were bound), so the failed call changes no variable; whatever
+    # is played afterwards - without undo - must look exactly as if the failing choice had never been tried
+    (""":: Start
+~ who = "nobody"
+~ rested = 0
+A road.
++ [Enter the camp] -> Camp("Ann")
+
+:: Camp(guest)
+The camp of {guest}. On watch: {who}.
++ [Send a scout] -> Scout("Bob")
++ [Rest] -> @join
+    ~ rested = rested + 1
+    You rest for a while. {who}
+@join
+Morning. On watch: {who}. Rested {rested}x.
++ [Leave] -> Start
++ [Again] -> Camp("Cy")
+
+:: Scout(who)
+~ tracks = 1 / 0
+{who} finds tracks.
++ [Back] -> Start
+""", [0], 0, [1, 1, 1]),
+    (""":: Start
+~ who = "nobody"
+~ n = 0
+A road.
++ [Camp] -> Camp
+
+:: Camp
+On watch: {who}.
++ [Scout far] -> Relay("Bob", 3)
++ [Rest] -> @join
+    Resting: {who} {n}
+@join
++ [Nap] -> @join
+    Napping: {who} {n}
+@join
+Morning: {who} {n}.
++ [Greet] -> Greet
++ [Leave] -> Start
+
+:: Relay(who, n)
+-> Scout(who, n + 1)
+
+:: Scout(who, n)
+@for k in n:
+  never {k}
+@endfor
+{who} finds tracks.
+
+:: Greet(who="friend")
+Hello {who} {n}.
++ [Back] -> Camp
+""", [0], 0, [1, 0, 0, 0]),
+]
+
+
+def failed_choice_invisible(rep):
+    from bardic.runtime.engine import BardEngine
+    from common import quiet
+    n = 0
+    for src, before, bad, after in AFTERMATH:
+        try:
+            story = corr_play.compile_source(src)
+        except Exception as ex:  # noqa
+            rep.violations.append({"cls": None, "family": "c15-aftermath", "what": f"probe story does not compile: {ex}", "source": src})
+            continue
+
+        def obs(o):
+            return {"content": o.content, "choices": [(c["text"], c["target"]) for c in o.choices], "passage": o.passage_id}
+
+        def play(with_failure):
+            trace = []
+            with quiet():
+                e = BardEngine(copy.deepcopy(story))
+                for p in before:
+                    e.choose(p)
+                if with_failure:
+                    try:
+                        e.choose(bad)
+                        trace.append("the failing choice raised nothing")
+                    except (RuntimeError, ValueError):
+                        pass
+                for p in after:
+                    trace.append(obs(e.choose(p)))
+                trace.append({k: repr(v) for k, v in e.state.items() if not k.startswith("_")})
+            return trace
+        try:
+            control, failed = play(False), play(True)
+        except Exception as ex:  # noqa
+            rep.violations.append({"cls": None, "family": "c15-aftermath", "what": f"probe session failed: {type(ex).__name__}: {str(ex)[:200]}", "source": src})
+            continue
+        n += 1
+        if control != failed:
+            k = next((j for j in range(min(len(control), len(failed))) if control[j] != failed[j]), 0)
+            rep.violations.append({"cls": None, "family": "c15-aftermath", "source": src, "before": before, "failing_choice": bad, "after": after,
+                                   "what": ("after a choice failed in author code (its target fails at its first statement, nothing was undone) later play differs "
+                                            f"from play in which the failing choice was never tried, at observation {k}: "
+                                            f"{json.dumps(control[k])[:300]} vs {json.dumps(failed[k])[:300]}")})
+    rep.coverage.setdefault("families", {})["c15-aftermath"] = {"cases": n}
+    rep.coverage["evaluations"] = rep.coverage.get("evaluations", 0) + n
